@@ -6,7 +6,7 @@ import sys, os, json, re, subprocess, shutil, tempfile
 src, dest = sys.argv[1], sys.argv[2]
 full = "--full" in sys.argv
 meta = json.load(open(os.path.join(src, "meta.json")))
-m = re.search(r"to\s+(\S+\.go)", meta["demo_placement"])
+m = re.search(r"to\s+(\S+\.go)", meta["demo_placement"]) or re.search(r"(\S+\.go)", meta["demo_placement"])
 place = m.group(1)
 run = re.search(r"-run\s+'?([^'\s]+)'?\s+(\S+)", meta["demo_cmd"])
 pat, pkg = run.group(1), run.group(2)
